@@ -1134,3 +1134,16 @@ m('C10','stale-member-snapshot','group/group.go',
   '\tg.mu.Lock()\n\tdefer g.mu.Unlock()\n\n\tclients := g.getClientsUnlocked(nil)\n\n\tvar username string',
   '\tclients := g.GetClients(nil)\n\n\tg.mu.Lock()\n\tdefer g.mu.Unlock()\n\n\tvar username string',
   'R10.2','member snapshot taken under the lock','operator-present test and announcements run on a membership read in an earlier critical section (seeded C10-2)')
+# ---------------- C04 R4.7 (round-3 seed C02-4) ----------------
+m('C04','vp8-start-ignores-partition',C,
+  'flags.Start = vp8.S != 0 && vp8.PID == 0','flags.Start = vp8.S != 0',
+  'R4.7','PacketFlags: Start set','every partition of a multi-partition VP8 frame counts as a frame start: switches and drops cut frames in the middle',quick=True)
+m('C04','vp8-keyframe-any-partition',C,
+  'flags.Keyframe = vp8.S != 0 && vp8.PID == 0 &&','flags.Keyframe = vp8.S != 0 &&',
+  'R4.7','PacketFlags: Keyframe set','a later partition with an even first octet is taken for a keyframe')
+m('C04','vp9-start-always',C,
+  'flags.Start = vp9.B','flags.Start = vp9.B || vp9.E',
+  'R4.7','PacketFlags: Start set','the last packet of a VP9 frame counts as a start')
+m('C04','benign-vp8-start-local',C,
+  'flags.Start = vp8.S != 0 && vp8.PID == 0\n','start := vp8.PID == 0 && vp8.S != 0\n\t\tflags.Start = start\n',
+  '','','the start condition named by a local',benign=True)
